@@ -3,6 +3,7 @@
 package tally
 
 import (
+	"io"
 	"sync"
 	"time"
 
@@ -201,4 +202,41 @@ func VerifC10StopwatchWallStep() {
 		verifrt.Assert("c10.wallstep.records-elapsed-time-not-wall-difference", rec.calls[0].i == int64(readings[1].Sub(readings[0])))
 	}
 	verifrt.Reach("c10.wallstep.end")
+}
+
+// VerifC10TimerAfterClose: a timer first requested from a subscope after that subscope was
+// closed is still a timer: each Record is delivered once, synchronously (plain and cached
+// reporter), resp. kept for the snapshot (test scope, whose closed subscopes stay functional).
+func VerifC10TimerAfterClose() {
+	mode := verifrt.Choose("mode", 3)
+	rec := &vReporter{}
+	crec := &vCachedReporter{}
+	var root *scope
+	switch mode {
+	case 0:
+		root = newRootScope(ScopeOptions{Reporter: rec, OmitCardinalityMetrics: true, registryShardCount: 1}, 0)
+	case 1:
+		root = newRootScope(ScopeOptions{CachedReporter: crec, OmitCardinalityMetrics: true, registryShardCount: 1}, 0)
+	case 2:
+		root = newRootScope(ScopeOptions{testScope: true, registryShardCount: 1}, 0)
+	}
+	sub := root.SubScope("s")
+	sub.(io.Closer).Close()
+	d := time.Duration(verifrt.Int64("d"))
+	sub.Timer("fresh").Record(d)
+	switch mode {
+	case 0:
+		verifrt.Assert("c10.after-close.one-delivery", len(rec.calls) == 1 && rec.calls[0].kind == "timer" && rec.calls[0].i == int64(d) && rec.calls[0].name == "s.fresh")
+	case 1:
+		verifrt.Assert("c10.after-close.one-delivery/cached", len(crec.calls) == 1 && crec.calls[0].kind == "timer" && crec.calls[0].i == int64(d))
+	case 2:
+		n := 0
+		for _, e := range root.Snapshot().Timers() {
+			if e.Name() == "s.fresh" {
+				n += len(e.Values())
+			}
+		}
+		verifrt.Assert("c10.after-close.kept-for-the-snapshot", n == 1)
+	}
+	verifrt.Reach("c10.after-close.end")
 }
